@@ -1,6 +1,6 @@
 (* C11 — Builder tuning parameters never change search results. *)
-From DV Require Import Model.Base Model.Nfa Model.BwBuild Model.BwSearch Model.Api Model.Spec
-     Model.Cert Proofs.BwCert.
+From DV Require Import Model.Base Model.Nfa Model.BwBuild Model.BwSearch Model.Utf8 Model.CwBuild Model.Api Model.Spec
+     Model.Cert Proofs.BwCert Proofs.Leftmost Proofs.BwLeftmost Proofs.Utf8Props Proofs.CwCert.
 Local Open Scope N_scope.
 
 (* Two byte-wise automata that pass the certificate checker for the same pattern/value pairs --
@@ -22,6 +22,38 @@ Proof.
   auto.
 Qed.
 Print Assumptions bw_certified_automata_agree.
+
+(* the same for the leftmost kinds (two automata certified against the same pattern list) ... *)
+Theorem bw_leftmost_certified_automata_agree :
+  forall (V : Type) (veqb : V -> V -> bool), (forall a b, veqb a b = true -> a = b) ->
+  forall (A1 A2 : bw_automaton V) (pvs : list (list N * V)),
+    bw_lm_cert_ok veqb A1 pvs = true -> bw_lm_cert_ok veqb A2 pvs = true ->
+  forall h : list N, Forall (fun b => b < 256) h ->
+    bw_leftmost_find_iter V A1 h = bw_leftmost_find_iter V A2 h.
+Proof.
+  intros V veqb Hv A1 A2 pvs C1 C2 h Hb.
+  rewrite (bw_leftmost_correct_lemma V veqb Hv A1 pvs C1 h Hb), (bw_leftmost_correct_lemma V veqb Hv A2 pvs C2 h Hb).
+  reflexivity.
+Qed.
+Print Assumptions bw_leftmost_certified_automata_agree.
+
+(* ... and for the character-wise automaton on every UTF-8 text *)
+Theorem cw_certified_automata_agree :
+  forall (V : Type) (veqb : V -> V -> bool), (forall a b, veqb a b = true -> a = b) ->
+  forall (A1 A2 : cw_automaton V) (pvs : list (list N * V)),
+    cw_cert_ok veqb A1 pvs = true -> cw_cert_ok veqb A2 pvs = true ->
+  forall cs : list N, Forall scalar cs ->
+    cw_find_overlapping_iter V A1 (encode_utf8 cs) = cw_find_overlapping_iter V A2 (encode_utf8 cs)
+    /\ cw_find_iter V A1 (encode_utf8 cs) = cw_find_iter V A2 (encode_utf8 cs)
+    /\ cw_find_overlapping_no_suffix_iter V A1 (encode_utf8 cs) = cw_find_overlapping_no_suffix_iter V A2 (encode_utf8 cs).
+Proof.
+  intros V veqb Hv A1 A2 pvs C1 C2 cs Hs.
+  rewrite (cw_overlapping_correct_lemma V veqb Hv A1 pvs C1 cs Hs), (cw_overlapping_correct_lemma V veqb Hv A2 pvs C2 cs Hs).
+  rewrite (cw_find_correct_lemma V veqb Hv A1 pvs C1 cs Hs), (cw_find_correct_lemma V veqb Hv A2 pvs C2 cs Hs).
+  rewrite (cw_nosuffix_correct_lemma V veqb Hv A1 pvs C1 cs Hs), (cw_nosuffix_correct_lemma V veqb Hv A2 pvs C2 cs Hs).
+  auto.
+Qed.
+Print Assumptions cw_certified_automata_agree.
 
 (* Non-vacuity: num_free_blocks = 1 and = 16 lay the same 875 patterns out in arrays of different
    length (2048 vs 1792 elements: blocks are evicted under 1), and both pass the checker. *)
